@@ -51,5 +51,8 @@ func C06FuzzOne(q string, storeSel, modeSel byte) (verdict string, status string
 			return fmt.Sprintf("panic while rendering the error at %s: %s", frame, pan), status
 		}
 	}
+	if pan := c06BuildExecutor(q); pan != "" {
+		return "panic in BuildExecutor: " + pan, "panic"
+	}
 	return "", status
 }
